@@ -1587,6 +1587,8 @@ func verifPartitionSMF(m Message) (n int) {
 // chunks run with "every track of s is closed" as an invariant, so a file is only ever written from closed tracks.
 // (The same fact as a postcondition of the whole function times out over the merged return paths and is not claimed.)
 //@ ensures [P:C01] len(s.Tracks) == old(len(s.Tracks))
+// the format that goes into the header: a single-track format with several tracks becomes format 1, nothing else changes it
+//@ ensures [P:C01] s.numTracks == uint16(len(s.Tracks)) && s.format == ((len(s.Tracks) > 1 && old(s.format) == 0) ? 1 : old(s.format))
 //@ ensures [P:C10] err == nil ==> (f.wfailed == old(f.wfailed))
 //@ ensures [P:C10] (f.wfailed && !old(f.wfailed)) ==> err != nil
 //@ ensures [P:C03] err == nil ==> size == int64(f.wlen - old(f.wlen))
